@@ -28,7 +28,104 @@ impl<'a> Shrinker<'a> {
         self.execs < self.max_execs
     }
 
+    /// interleaved-tasks runs: shorter schedule, fewer tasks, ops, calls and planned responses
+    fn shrink_tasks(&mut self, orig: &RunSpec) -> RunSpec {
+        let mut cur = orig.clone();
+        // schedule: empty, then halves, then single entries
+        let mut c = cur.clone();
+        c.schedule.clear();
+        if self.fails(&c) {
+            cur = c;
+        }
+        let mut chunk = cur.schedule.len() / 2;
+        while chunk >= 1 && self.budget() {
+            let mut st = 0;
+            while st < cur.schedule.len() && self.budget() {
+                let mut c = cur.clone();
+                let en = (st + chunk).min(c.schedule.len());
+                c.schedule.drain(st..en);
+                if self.fails(&c) {
+                    cur = c;
+                } else {
+                    st += chunk;
+                }
+            }
+            chunk /= 2;
+        }
+        // tasks
+        let mut ti = 0;
+        while ti < cur.tasks.len() && cur.tasks.len() > 1 && self.budget() {
+            let mut c = cur.clone();
+            c.tasks.remove(ti);
+            c.ty = c.tasks[0].ty.clone();
+            if self.fails(&c) {
+                cur = c;
+            } else {
+                ti += 1;
+            }
+        }
+        // ops, calls, planned responses
+        for ti in 0..cur.tasks.len() {
+            let mut oi = 0;
+            while oi < cur.tasks[ti].ops.len() && self.budget() {
+                let mut c = cur.clone();
+                c.tasks[ti].ops.remove(oi);
+                if self.fails(&c) {
+                    cur = c;
+                } else {
+                    oi += 1;
+                }
+            }
+            for oi in 0..cur.tasks[ti].ops.len() {
+                let mut ci = 0;
+                while ci < cur.tasks[ti].ops[oi].calls.len() && cur.tasks[ti].ops[oi].calls.len() > 1 && self.budget() {
+                    let mut c = cur.clone();
+                    c.tasks[ti].ops[oi].calls.remove(ci);
+                    if self.fails(&c) {
+                        cur = c;
+                    } else {
+                        ci += 1;
+                    }
+                }
+                for ci in 0..cur.tasks[ti].ops[oi].calls.len() {
+                    let mut k = 0;
+                    while k < cur.tasks[ti].ops[oi].calls[ci].len() && self.budget() {
+                        let mut c = cur.clone();
+                        c.tasks[ti].ops[oi].calls[ci].remove(k);
+                        if self.fails(&c) {
+                            cur = c;
+                        } else {
+                            k += 1;
+                        }
+                    }
+                }
+                if cur.tasks[ti].ops[oi].dynamic {
+                    let mut c = cur.clone();
+                    c.tasks[ti].ops[oi].dynamic = false;
+                    if self.fails(&c) {
+                        cur = c;
+                    }
+                }
+            }
+        }
+        // schedule once more (fewer scheduling points now), entry by entry
+        let mut k = 0;
+        while k < cur.schedule.len() && self.budget() {
+            let mut c = cur.clone();
+            c.schedule.remove(k);
+            if self.fails(&c) {
+                cur = c;
+            } else {
+                k += 1;
+            }
+        }
+        cur
+    }
+
     pub fn shrink(&mut self, orig: &RunSpec) -> RunSpec {
+        if !orig.tasks.is_empty() {
+            return self.shrink_tasks(orig);
+        }
         let ty = by_name(self.menu, &orig.ty).expect("type");
         // 0. explicit form: every served response written out
         let mat = run(orig, ty, false).materialised;
